@@ -175,6 +175,9 @@ def check_lazy(ctx, case, x_eager, n_orders):
                             f"{sorted(pe - pl)[:3]}", lc)
             elif le != re_:
                 ctx.count("lazy.equal_up_to_producer_reuse")
+                ctx.violate("lazy-differs-from-eager",
+                            f"a lazily expanded test has other dependencies than in the graph parsed up front: only lazy "
+                            f"{sorted(set(le) - set(re_))[:3]}, only eager {sorted(set(re_) - set(le))[:3]}", lc)
             else:
                 ctx.count("lazy.exactly_equal")
             check_copies(ctx, lc, xl)
